@@ -298,6 +298,7 @@ def rewrite_asserts(text):
 
 
 RULES_APPLIED = {}
+OPAQUE_CONSTS = set()  # names of `const` items whose initialiser the Verus front end rejected: kept, but opaque in the image (R12)
 DROP_STATICS = set()   # names of `static` items the Verus front end rejected (shared state: reported by C19's frame scan)
 
 
@@ -334,6 +335,21 @@ def apply_rules(text, relpath):
     text = sub('R5', r'^[ \t]*use thiserror::Error;[ \t]*\n', '', text, re.M)
     text = sub('R5', r'^[ \t]*use phf::phf_map;[ \t]*\n', '', text, re.M)
     text = sub('R5', r'^[ \t]*#\[error\(.*\)\][ \t]*\n', '', text, re.M)
+    while True:      # the same attribute wrapped over several lines (rustfmt)
+        bb, _ = rs.blank(text)
+        m = re.search(r'(?m)^[ \t]*#\[error\s*\(', bb)
+        if not m:
+            break
+        c = rs.match_bracket(bb, bb.index('[', m.start()))
+        e = c + 1
+        while e < len(text) and text[e] in ' \t':
+            e += 1
+        if e < len(text) and text[e] == '\n':
+            e += 1
+        text = text[:m.start()] + text[e:]
+        count('R5')
+    text = sub('R5', r'^#!\[(warn|deny|allow|forbid|doc)\b[^\n]*\]\s*\n', '', text, re.M)
+    text = sub('R5', r'^[ \t]*#\[cfg\(test\)\]\s*(pub(\([a-z]+\))?\s+)?mod\s+\w+\s*;[ \t]*\n', '', text, re.M)
     text = sub('R5', r'IntoPrimitive, TryFromPrimitive, ', '', text)
     # the same derives in any other position / combination (an enum that newly derives them: generic D3 stand-in)
     def _strip_prim(m):
@@ -380,6 +396,14 @@ def apply_rules(text, relpath):
                 k += 1
             text = text[:m.start()] + text[k + 1:]
             count('R9')
+    # R12: a `const` whose initialiser the front end rejects (`trailing_zeros()`, ...) keeps its declaration but becomes
+    # opaque (`#[verifier::external_body]`); every function that mentions it is degraded (splice_fn)
+    for name in sorted(OPAQUE_CONSTS):
+        bb, _ = rs.blank(text)
+        m = re.search(r'(?m)^([ \t]*)((?:pub(?:\([a-z]+\))?\s+)?const\s+%s\s*:)' % re.escape(name), bb)
+        if m:
+            text = text[:m.start()] + m.group(1) + '#[verifier::external_body] ' + text[m.start() + len(m.group(1)):]
+            count('R12')
     # R10: a type that derives PartialEq + Eq and is built only from primitive integers, bool and field-less enums gets
     # Verus' `Structural` derive, which gives the *derived* `==` its structural meaning (otherwise `a == b` on such a
     # type is opaque to the verifier).  Types holding Vec / String / generics are left alone.
@@ -709,6 +733,16 @@ class Gen:
                 if any(kw != 'for' for _, kw in bare):
                     ind = re.match(r'[ \t]*', text[f.line_start:]).group(0)
                     edits.append((f.line_start, f.line_start, '%s#[verifier::exec_allows_no_decreases_clause]%s\n' % (ind, TAG)))
+        if f.has_body and not (c and c.external_body):
+            # an item nested in the body (`fn helper(..) {..}` inside a function) is invisible to the item scan: it carries
+            # no contract, so what it returns is opaque to this function's proof
+            nested = re.findall(r'(?<![\w.])fn\s+([A-Za-z_][A-Za-z0-9_]*)\s*[<(]', b[f.body_open + 1:f.body_close])
+            if nested:
+                self.lose(f, 'nested fn item(s) without contract: %s' % ', '.join(sorted(set(nested))))
+        if f.has_body and OPAQUE_CONSTS:
+            used = [n for n in sorted(OPAQUE_CONSTS) if re.search(r'\b%s\b' % re.escape(n), b[f.body_open:f.body_close])]
+            if used:
+                self.lose(f, 'uses constant(s) whose initialiser is outside what the front end accepts (opaque in the image): %s' % ', '.join(used))
         # closures: the result of a closure without a spliced contract is opaque to the proof.  The closures of the tree the
         # contracts were written for are in the inventory vf/known_closures.json; a closure that is not there (and that no
         # `@closure` entry selects) makes every failure in this function undecided (witness-decided)
@@ -1183,10 +1217,12 @@ def read_contract_sources(vf_dir):
     return srcs
 
 
-def build_image(repo_src='/repo/src', vf_dir=HERE, canary=False, extra_sidecars=None, skip_body=(), force_external=(), drop_statics=(), drop_contract=()):
+def build_image(repo_src='/repo/src', vf_dir=HERE, canary=False, extra_sidecars=None, skip_body=(), force_external=(), drop_statics=(), drop_contract=(), opaque_consts=()):
     RULES_APPLIED.clear()
     DROP_STATICS.clear()
     DROP_STATICS.update(drop_statics)
+    OPAQUE_CONSTS.clear()
+    OPAQUE_CONSTS.update(opaque_consts)
     import spec_table
     srcs = read_contract_sources(vf_dir)
     srcs.append(('<spec_table>', spec_table.generated_sidecar()))
@@ -1219,6 +1255,7 @@ def build_image(repo_src='/repo/src', vf_dir=HERE, canary=False, extra_sidecars=
     maps['missing_functions'] = {k: sorted({p for lab, _ in contracts[k].requires + contracts[k].ensures if lab for p in lab['props']})
                                  for k in getattr(g, 'missing', [])}
     maps['dropped_statics'] = sorted(DROP_STATICS)
+    maps['opaque_consts'] = sorted(OPAQUE_CONSTS)
     maps['dropped_contracts'] = dropped
     for k, ps in dropped.items():
         maps['missing_functions'][k] = ps
